@@ -36,7 +36,8 @@ LEVEL_TEXT = ("Partial proof. Proved in Lean: `paintedLayers_eq_spec` — for EV
               "(after save+reload, glyph reached through cmap+GSUB) on generated SVG sets with cross-glyph reuse.")
 LEVEL_NOTE = ("Trusted: Lean kernel; transcription of SVG 1.1 / COLRv1 rendering rules in harness/render.py (Python, independent of nanoemoji); "
               "skia-pathops contains(); picosvg front end (its output is the source). Sampling tolerances: colour 0.08, points within "
-              "~2.5 font units of an edge or on steep gradients are skipped (counted in evidence).")
+              "~2.5 font units of an edge or on steep gradients are skipped (counted in evidence)."
+              " Tie T': `scale_viewbox_to_font_metrics`, `map_viewbox_to_font_space`, `_advance_width` are re-translated from color_glyph.py on every run and proved equal to the models (`scale_viewbox_eq`, `map_font_space_eq`, `advance_width_eq`).")
 TECHNIQUE = "Lean 4 proof of the placement/advance/gradient-invariance lemmas + differential correspondence + reference-renderer sampling of real fonts"
 ASSUMPTIONS = ["renderer conformance is out of scope; COLRv1 semantics are as transcribed in harness/render.py"]
 
